@@ -207,6 +207,54 @@ def early_retransmission(addr, name, w, family=socket.AF_INET):
         s.close()
 
 
+def stale_burst_then_ack(addr, name, w, family=socket.AF_INET):
+    """While the server is still sending a slow window (duplicate-packets mode), the client sends 160 stale ACKs and then
+    the in-window ACK(1). Returns (again, note): again = number of times block 1 was sent again after the first pass."""
+    s = N._sock(family, timeout=3.0)
+    tr = N.Transfer()
+    try:
+        s.sendto(N.enc_req(N.RRQ, name, options=[("windowsize", w), ("blksize", 8), ("timeout", 1)]), addr)
+        k, f, peer = N.recv(s, tr)
+        if k != "OACK":
+            return None, f"first reply {k}"
+        s.sendto(N.enc_ack(0), peer)
+        k, f, _ = N.recv(s, tr)
+        if k != "DATA" or f["blk"] != 1:
+            return None, f"expected DATA 1, got {k}"
+        for i in range(160):
+            s.sendto(N.enc_ack(0), peer)
+            if i % 4 == 3:
+                time.sleep(0.001)
+        s.sendto(N.enc_ack(1), peer)
+        # first pass: until block w (or silence); then the server must go on with w+1 and never send block 1 again
+        again, seen_end, beyond = 0, False, False
+        end = time.time() + 8.0
+        end_seen_at = None
+        while time.time() < end:
+            k, f, _ = N.recv(s, tr, timeout=0.5)
+            if k is None:
+                # after the pass: either the next window or (after the timeout, 1 s) the old one comes
+                if seen_end and time.time() - end_seen_at > 3.0:
+                    break
+                continue
+            if k != "DATA":
+                continue
+            if f["blk"] == w and not seen_end:
+                seen_end = True
+                end_seen_at = time.time()
+            if f["blk"] == w + 1:
+                beyond = True
+                break
+            if f["blk"] == 1 and seen_end:
+                again += 1
+                if again >= 2:
+                    break
+        s.sendto(N.enc_error(0, b"done"), peer)
+        return again, "resumed behind the window" if beyond else ("first pass never finished" if not seen_end else "")
+    finally:
+        s.close()
+
+
 def c08(v, tier):
     ctx = Ctx("C08", tier)
     tftpd = ctx.bins["release"]["tftpd"]
@@ -262,6 +310,26 @@ def c08(v, tier):
                 gaps.append((None if gap is None else round(gap, 3), None if sendtime is None else round(sendtime, 3), note))
                 if gap is None or gap >= 0.9:
                     break
+            # a burst of stale ACKs while the window is still going out, then the ACK of its first block
+            write(os.path.join(srv.args[srv.args.index("-d") + 1], "burst.bin"), N.keyed_content("c08-burst", 8 * 900 + 3))
+            tries = []
+            kernel_drops = 0
+            for attempt in range(3):
+                d0 = N.udp_counters()
+                again, note = stale_burst_then_ack(srv.addr, "burst.bin", 400, family=srv.family)
+                d1 = N.udp_counters()
+                kernel_drops += (d1[0] - d0[0]) + (d1[1] - d0[1])
+                tries.append((again, note))
+                if not again:
+                    break
+            evals += 1
+            info.setdefault("stale_burst_then_ack", {})[cfg] = tries
+            if len(tries) == 3 and all(t[0] for t in tries) and kernel_drops:
+                v.note_inconclusive(f"{cfg}: stale-burst scenario: the kernel dropped {kernel_drops} datagram(s) on this host meanwhile")
+            elif len(tries) == 3 and all(t[0] for t in tries):
+                v.violation("C08/net/acked-block-retransmitted-after-stale-burst", f"{cfg}: windowsize 400: 160 stale ACKs followed by ACK(1) while the window was going out; block 1 was sent again afterwards (3 of 3 attempts)", {"engine": "net", "config": cfg, "attempts": tries})
+            elif tries[-1][0] is None:
+                v.note_inconclusive(f"{cfg}: stale-burst scenario did not start: {tries[-1][1]}")
             info.setdefault("retransmission_after_slow_window", {})[cfg] = gaps
             if len(gaps) == 3 and all(g[0] is not None and g[0] < 0.9 for g in gaps):
                 v.violation("C08/net/retransmission-before-timeout", f"{cfg}: windowsize 600, timeout 1 s: after a stale ACK the window was sent again only {[g[0] for g in gaps]} s after its previous transmission had ended (sending it took {[g[1] for g in gaps]} s; 3 of 3 attempts)",
